@@ -547,8 +547,16 @@ def Pair.keysDistinct (x : Pair) : Bool :=
 
 /-- The key a roll in progress is going to revoke is still in use at the parent, in the class the
 child's class name stands for: the parent did not revoke it on its own side (by shrinking its
-own certificate to nothing of the child's, or removing the child).  Excludes
-`sync_stuck_after_parent_side_revocation`. -/
+own certificate to nothing of the child's, or removing the child).  Since fix 7be8c4c6 this is
+stronger than the code needs: a key the parent marked `Revoked` itself is confirmed as well
+(`C02.sync_converges_after_parent_side_revocation` – the pair the hypothesis was introduced for
+now converges).  It cannot be dropped altogether: a key the parent has NO record of (child removed
+and added again during the roll) is still refused and the child is stuck
+(`C02.sync_stuck_after_child_readded`, replayed: corpus/system-findings/c02-f2-child-readded-during-roll.ops).
+The hypothesis is kept in this form because the proof of the request branch (`classRequests_gen`,
+`revoke_stored`, the in-use bookkeeping `UsedRel` / `Answered2.inuse`) follows the key as IN USE
+up to the revocation; weakening it to "in use or revoked" means a second arm through all of
+these and was not done. -/
 def Pair.noParentSideRevocation (x : Pair) : Bool :=
   x.child.ca.classes.all fun q => decide (q.2.parent ≠ x.ph) || q.2.keys.leaving.all fun k =>
     match get x.parent.ca.children x.ch with
